@@ -20,8 +20,8 @@ var (
 )
 
 type sgen struct {
-	rng      *rand.Rand
-	defNames []string
+	rng       *rand.Rand
+	defNames  []string
 	malformed bool // degenerate keywords allowed (C06 stream)
 	edgeNums  bool
 }
